@@ -143,7 +143,7 @@ def string_program(rnd):
 LONG_SHAPES = [(100, 13, 130, 10, "0123456789"), (104, 10, 130, 8, "abcdefghijklmnopqrstuvwxyz"), (100, 26, 130, 20, "0123456789"),
                (100, 39, 130, 30, "01234é6789"), (100, 52, 130, 40, "0123456789"), (100, 91, 130, 70, "0123456789"),
                (64, 8, 128, 4, "abcdefgh"), (64, 16, 128, 8, "abcdefgh"), (64, 17, 136, 8, "abcdefgé"), (5, 3, 3, 5, "z"),
-               (64, 4, 128, 2, "abcdefgh"), (96, 171, 256, 64, "0123456789abcdef0123456789ABCDEF"), (128, 513, 513, 128, "q")]
+               (64, 4, 128, 2, "abcdefgh"), (96, 168, 256, 63, "0123456789abcdef0123456789ABCDEF"), (128, 513, 513, 128, "q")]
 
 
 def long_string_program(rnd):
